@@ -145,9 +145,13 @@ def _verify_contract(w, src, db, c, lemma_fn=None, timeout_ms=10000, relevance=N
                                       f"on every explored path every store write targets an object allocated in this activation ({nviol} writes outside the frame)"))
         else:
             obs = contract_obligations(I, c, lemma_fn)
-    except (Unsupported, SpecError, ExtractError) as ex:
+    except (Unsupported, SpecError, ExtractError, AttributeError, TypeError, KeyError, IndexError, ValueError, AssertionError, z3.Z3Exception, RecursionError) as ex:
+        # an error inside the engine while interpreting this function (it does not happen on the tree the engine was built against: every
+        # contract there is interpreted on every run) means the code uses something the engine has no model for - outside the verified subset,
+        # decided by the bounded stand-in; never a crash of the check and never a finding
+        kind_ = "" if isinstance(ex, (Unsupported, SpecError, ExtractError)) else "engine error, treated as outside the verified subset: "
         v = Verdict(f"R:{short}:subset", "unknown", "-", time.time() - t0, where=c.name,
-                    note=f"function left the verified subset: {type(ex).__name__}: {ex}")
+                    note=f"function left the verified subset: {kind_}{type(ex).__name__}: {ex}")
         # the obligations about the function's signature and module state are syntactic: they are decided even when the body
         # cannot be interpreted
         sig = []
